@@ -383,6 +383,20 @@ func (s *sender) resendSegment() {
 
 	// Resend the segment.
 	if seg := s.writeList.Front(); seg != nil {
+		if seg.data.Size() > s.maxPayloadSize {
+			// The segment was cut before the path MTU shrank: resend only
+			// what fits now and leave the rest as a segment of its own.
+			nSeg := seg.clone()
+			nSeg.data.TrimFront(s.maxPayloadSize)
+			nSeg.sequenceNumber.UpdateForward(seqnum.Size(s.maxPayloadSize))
+			s.writeList.InsertAfter(seg, nSeg)
+			seg.data.CapLength(s.maxPayloadSize)
+			if s.writeNext != seg {
+				// Both halves were in flight as one segment; the
+				// acknowledgement loop counts them separately.
+				s.outstanding++
+			}
+		}
 		s.sendSegment(seg.data, seg.flags, seg.sequenceNumber)
 	}
 }
